@@ -52,6 +52,13 @@ Theorem antex_file_roundtrip_gen : forall m,
 Proof. exact roundtrip_gen. Qed.
 Print Assumptions antex_file_roundtrip_gen.
 
+(* the data of an AntennaCalibration object are exactly the calibrations of the file: in particular every validity
+   period of a PRN keeps its own printed end (or datetime.max), whatever the other periods of that PRN are *)
+Theorem antenna_calibration_entry_point : forall m,
+  good_file m = true -> calibration_data all_off antex_corr_table (render_file m) = Ok (expected m).
+Proof. exact roundtrip_gen. Qed.
+Print Assumptions antenna_calibration_entry_point.
+
 (* ... also when arbitrary ignorable lines are interspersed *)
 Theorem antex_file_roundtrip_with_comments : forall m lines keep,
   good_file m = true ->
